@@ -499,6 +499,28 @@ def r7_os_layer(chk, prog, rule='R7'):
                   % (short, libc), f.loc(), '' if ok else detail)
 
 
+def r8_fresh_message_text(chk, prog, rule='R8'):
+    """what is written for a message is the text of THIS message: files::Handler< P, L>::message() formats into a
+    stream that is a local object of the call and hands exactly that stream's content to the policy - a stream that
+    outlives the call (a member) still holds the tail of an earlier, longer message"""
+    n = 0
+    for f in prog.functions:
+        if f.short != 'message' or f.body is None or not (f.classq or '').startswith('celma::log::files::Handler'):
+            continue
+        fm = [c for c in f.calls() if callee_is(c, 'formatMsg')]
+        wm = [c for c in f.calls() if callee_is(c, 'writeMessage')]
+        if not fm or not wm:
+            continue
+        n += 1
+        a = strip_all_casts(call_args(fm[0])[0])
+        local = a.get('k') == 'DeclRefExpr' and a['ref'].get('sto') == 'local'
+        same = local and any(mentions_var(x, a['ref'].get('name')) for x in call_args(wm[0]))
+        chk.check(local and same, rule, f.name, 'the message text is formatted into a stream of its own and that text is '
+                  'what is written', f.loc(fm[0]), 'the stream is %s' % ('a member: it keeps the characters of earlier '
+                  'messages' if a.get('k') == 'MemberExpr' else 'not the one whose content is written'))
+    chk.require(n >= 2, 'message() of the file handler instantiations: %d' % n)
+
+
 def run(chk):
     units = units_matching('library/log/files/', 'library/common/file_operations.cpp') + [
         os.path.join(VERIF, 'drivers', 'log_files.cpp')]
@@ -523,6 +545,8 @@ def run(chk):
     r4(chk, prog)
     chk.rule('R5', 'the file handler holds its lock around check, roll-over, write and accounting', 2)
     r5_lock_held(chk, prog)
+    chk.rule('R8', 'the text written for a message is formatted freshly for it', 2)
+    r8_fresh_message_text(chk, prog)
     chk.rule('R6', 'every generation number has its own file name (the number is rendered completely)', 3)
     prog6 = load_program(units_matching('library/log/filename/builder.cpp'))
     chk.units = list(chk.units) + units_matching('library/log/filename/builder.cpp')
